@@ -423,6 +423,10 @@ func NeedsQuote(sym string) bool {
 		if r == ' ' || r == '.' || r == ',' || r == '-' || r == '+' || (r >= '0' && r <= '9') {
 			return true
 		}
+		// letters of other scripts are written in quotes (G promises upper-case ASCII and currency signs unquoted)
+		if r > 127 && !IsCurrency(string(r)) {
+			return true
+		}
 	}
 	return false
 }
